@@ -28,7 +28,7 @@ Violated(r) ==
   \cup If(C_OtherBehavesLocal(a, s, t), "OtherBehavesLocal")
   \cup If(C_DisabledStaysSilent(a, s, t), "DisabledStaysSilent")
   \cup If(a.op = "set" =>
-            LET accepted == a.ok /\ <<r.read.w, r.read.d>> = <<a.a, a.n1>>
+            LET accepted == a.ok /\ r.read.w = a.a /\ DateOK(a, r.read.d)
                 rejected == ~a.ok /\ r.same.mode
             IN IF a.a \notin ValidModes THEN rejected
                ELSE IF a.p = "" THEN accepted
